@@ -209,6 +209,9 @@ var cur atomic.Pointer[runner]
 
 const waitLimit = 3 * time.Second
 
+// spinLimit bounds the number of select rounds of the scheduler loop in one history.
+const spinLimit = 4000
+
 func (r *runner) logf(f string, a ...any) { r.lines = append(r.lines, fmt.Sprintf(f, a...)) }
 
 func (r *runner) violate(id, what string) {
@@ -261,6 +264,14 @@ func hookCB(name string, args ...any) {
 			b = 1
 		}
 		r.logf("armed timer=%d", b)
+		if r.armedSeq > spinLimit && r.broken == "" {
+			// the loop re-arms without ever parking (e.g. a timer that keeps firing): livelock
+			r.violate("loop-hang", fmt.Sprintf("scheduler loop passed its select %d times in one history without settling (busy loop)", r.armedSeq))
+			r.broken = "loop-spin"
+			cur.Store(nil) // detach the taps; the wind-down stops the loop
+			r.mu.Unlock()
+			return
+		}
 		if p := r.pending; snapshotCaused && p != nil && p.kind == "entries" {
 			if !r.waitFor(func() bool { return p.logged }) {
 				r.broken = "Entries() did not return after its snapshot was served"
@@ -674,6 +685,9 @@ func (r *runner) settle() bool {
 	r.mu.Lock()
 	defer r.mu.Unlock()
 	ok := r.waitFor(func() bool {
+		if r.broken != "" {
+			return true
+		}
 		if !r.quiescentLocked() {
 			return false
 		}
@@ -684,6 +698,9 @@ func (r *runner) settle() bool {
 		}
 		return true
 	})
+	if r.broken != "" {
+		return false
+	}
 	if !ok {
 		r.violate("loop-hang", fmt.Sprintf("scheduler did not become quiescent (running=%v lastArmed=%v timer=%v launched=%d begun=%d pending=%v)",
 			r.running, r.lastArmed, r.timerFlag, r.launched, r.begun, r.pending != nil))
@@ -1096,9 +1113,9 @@ func main() {
 			cases = append(cases, rp.Case)
 		}
 	} else {
-		nRand, depth := 400, 2
+		nRand, depth := 3000, 3
 		if fl.Tier == "thorough" {
-			nRand, depth = 5000, 3
+			nRand, depth = 40000, 4
 		}
 		if fl.Search {
 			nRand *= 6
